@@ -5,7 +5,7 @@ from .defs import variant, enum, field, rs_str
 from .core import uncp, cp
 
 IDENTS13 = ["Red", "HTTPServer", "Ab12Cd", "V2", "Xml2Json", "A", "Ab", "DarkBlue", "X1", "IOError", "MyVariant", "TLS13", "Item9",
-            "Option2", "Utf8To16", "X1Y2", "A1B2C3", "Sha2With512", "SHOUT", "snake_id", "Foo_Bar", "Utf8Str", "B2B", "Ipv4Addr", "Sha256Sum", "Z", "AB", "ABc", "Hello2You", "U8"]
+            "Option2", "Utf8To16", "X1Y2", "A1B2C3", "Sha2With512", "SHOUT", "snake_id", "Foo_Bar", "Utf8Str", "B2B", "Ipv4Addr", "Sha256Sum", "Z", "AB", "ABc", "Hello2You", "U8", "None", "Some", "Ok", "Err", "Option"]
 TRY_TYPES = ["u8", "i32", "bool", "String", "opt", "char", "i64", "u16"]
 
 
@@ -197,7 +197,8 @@ def msg_module(E):
 # --------------------------------------------------------------------------- EnumProperty (C15)
 KEYS = ["color", "Color", "n", "size", "type", "fn", "self", "key_1", "k", "K", "length", "is_ok", "x", "crate", "red"]
 INTS = [(0, "0"), (1, "1"), (-1, "-1"), (42, "42"), (255, "0xFF"), (1000, "1_000"), (7, "7i64"), (-17, "-17"),
-        (2**63 - 1, "9223372036854775807"), (-2**63, "-9223372036854775808"), (8, "0o10"), (5, "0b101"), (-255, "-0xff")]
+        (2**63 - 1, "9223372036854775807"), (-2**63, "-9223372036854775808"), (8, "0o10"), (5, "0b101"), (-255, "-0xff"),
+        (255, "0xFFi64"), (493, "0o755i64"), (10, "0b1010_i64"), (255, "0xff_i64"), (1000, "1_000i64"), (16, "16i64")]
 STRS = ["", "red", "Red", "with \"quote\"", "é€", "true", "1", "multi word", "{brace}"]
 
 
